@@ -3,7 +3,8 @@
         c_dir * ff_dir * stencil_dir(p),      ff_dir = 1 / (width_dir * width_dir)
    stencil_dir(p) = (A[p - e_dir] + A[p + e_dir]) - 2 A[p]  in the interior of that direction and, with wrap-around neighbours, everywhere
    when the direction is periodic;  A[p + e_dir] - A[p]  on the lower and  A[p - e_dir] - A[p]  on the upper non-periodic edge.
-   c_dir (the edge-halving factor that keeps the matrix symmetric) is not constrained here. */
+   c_dir (the edge-halving factor that keeps the matrix symmetric): in two dimensions 1/2 exactly where the point lies on a non-periodic edge of the other direction, 1 elsewhere;
+   in three dimensions it is not constrained here. */
 #ifndef LAPLACE_CONTRACT_H
 #define LAPLACE_CONTRACT_H
 #include <stddef.h>
@@ -26,8 +27,14 @@ static _Bool is_centered(int n, int nd, int p, int dir) { int s = t_a(n), m = t_
 static _Bool is_onesided(int n, int nd, int p, int dir, int delta) { return t_op(n) == T_SUB && t_a(n) == g_a[moved(nd, p, dir, delta)] && t_b(n) == g_a[p]; }
 static _Bool is_term(int n, int nd, int p, int dir, _Bool per) { int c = coord(nd, p, dir); int st = t_b(n);
   return t_op(n) == T_MUL && is_coef(t_a(n), dir) && ((per || (c > 0 && c < g_nx[dir] - 1)) ? is_centered(st, nd, p, dir) : (c == 0 ? is_onesided(st, nd, p, dir, 1) : is_onesided(st, nd, p, dir, -1))); }
+/* two dimensions: the edge-halving factor is pinned.  The term of direction dir is halved exactly at the points that lie on a non-periodic edge of the OTHER
+   direction (this is what keeps the matrix symmetric: Long Chen's scheme, quoted in the code); elsewhere the factor is 1 (written or omitted). */
+static _Bool is_coef2(int n, int dir, _Bool halved) { return halved ? (t_op(n) == T_MUL && is_leaf(t_a(n), 0.5) && t_a(n) != -1 && is_ff(t_b(n), dir))
+                                                                   : (is_ff(n, dir) || (t_op(n) == T_MUL && is_leaf(t_a(n), 1.0) && is_ff(t_b(n), dir))); }
+static _Bool on_open_edge(int p, int dir, _Bool per) { int c = coord(2, p, dir); return !per && (c == 0 || c == g_nx[dir] - 1); }
 static _Bool point_ok(int nd, int p, _Bool p0, _Bool p1, _Bool p2) { int r = g_la[p];
-  if (nd == 2) return t_op(r) == T_ADD && is_term(t_a(r), 2, p, 0, p0) && is_term(t_b(r), 2, p, 1, p1);
+  if (nd == 2) return t_op(r) == T_ADD && is_term(t_a(r), 2, p, 0, p0) && is_term(t_b(r), 2, p, 1, p1)
+                   && is_coef2(t_a(t_a(r)), 0, on_open_edge(p, 1, p1)) && is_coef2(t_a(t_b(r)), 1, on_open_edge(p, 0, p0));
   int q = t_a(r); return t_op(r) == T_ADD && is_term(t_b(r), 3, p, 2, p2) && t_op(q) == T_ADD && is_term(t_a(q), 3, p, 0, p0) && is_term(t_b(q), 3, p, 1, p1); }
 extern int g_p;   /* ghost point index: the postcondition holds for every p */
 void k_atimes(int nd, int n0, int n1, int n2, _Bool p0, _Bool p1, _Bool p2)
